@@ -132,6 +132,8 @@ SWEEP_PROGS = [
     '(ann): int = 1\n(obj.attr): str\nclass K:\n    (field): list = []\n    plain: int\n', 'a: int = 1\n(b): int\nc.d: int = 2\ne[0]: int\n',
     'for (i) in j: pass\nwith a as (b): pass\n[k for (k) in l]\n(m := n)\no = p = q\n',
 ]
+INDENT_PROGS = ['def f():\n    b\'\'\'x\n    y\'\'\'\n    return 1\n', 'class K:\n    def m(self):\n        b\'\'\'p\n  q\'\'\'\n        \'\'\'s\n        t\'\'\'\n        z = b\'\'\'u\n        v\'\'\'\n        return z\n',
+                'def g():\n    \'\'\'doc\n    more\'\'\'\n    x = \'\'\'a\n    b\'\'\'\n    f\'\'\'c{x}\n    d\'\'\'\n    rb\'\'\'e\n    f\'\'\'\n    return x\n']
 PRIM_PROGS = ['x = 1.0.real\n', 'x = [1for y in z]\n', 'x = 1if y else 2\n', 'x = "a".upper()\n', 'x = not"a"\n', 'def f():\n    return"a" + b\n', 'x = "a"if"b"else"c"\n',
               'x = 1.0 ** 2\n', 'x = -1\n', 'x = a[1:2]\n', 'x = f(1, k=2)\n', "x = '''m\nl'''.strip()\n", 'x = 1 .real + 2j\n', 'x = "é"if"b"else"c"  # ü\n', 'x = (1)\n']
 PRIM_VALUES = [1, 5, True, None, 2.5, -0.0, 0.0, -1, 1j, 's', b'b', ..., 10 ** 30, 1e100]
@@ -167,6 +169,32 @@ def stage_structural_sweep(ctx: Ctx):
                                   {**rec, 'result_src': root.src, 'diffs': d})
         targets = []
         if src is SWEEP_PROGS[0]:
+            # (d) statements carrying multi-line str / bytes literals moved to another indentation level (copy / cut into a deeper block, out to module level)
+            for isrc in INDENT_PROGS:
+                iprobe = fst.FST(isrc, 'exec')
+                for path in [iprobe.child_path(f) for f in iprobe.walk(True) if isinstance(f.a, ast.stmt)]:
+                    for how in ('copy_deeper', 'cut_deeper', 'copy_top', 'cut_top', 'copy_into_def'):
+                        root = fst.FST(isrc + 'if deep:\n    if deeper:\n        pass\ndef holder():\n    pass\n', 'exec')
+                        f = root.child_from_path(path)
+                        rec = {'src': root.src, 'stmt': repr(f), 'how': how}
+                        if how.startswith('cut') and len(getattr(f.parent.a, f.pfield.name)) == 1:
+                            continue      # emptying a block is allowed to leave an unparsable source unless norm is set
+                        try:
+                            piece = f.cut() if how.startswith('cut') else f.copy()
+                            if how.endswith('deeper'):
+                                root.body[-2].body[0].body.append(piece)
+                            elif how.endswith('top'):
+                                root.body.insert(piece, 0)
+                            else:
+                                root.body[-1].body.append(piece)
+                        except Exception as e:
+                            ctx.dist['sweep:indent-move:refused'] = ctx.dist.get('sweep:indent-move:refused', 0) + 1
+                            continue
+                        ctx.tick(('sweep', isrc, str(path), how), 'sweep:indent-move')
+                        d = reparse_diffs(root)
+                        if d:
+                            ctx.violation(f'pos|indent-move|{d[0].split(": ")[-1][:40]}', 'after moving a statement to another indentation level the source parsed from scratch differs from the live tree',
+                                          {**rec, 'result_src': root.src, 'diffs': d})
             # (c) primitives put to Constant.value where the constant touches its neighbours
             for csrc in PRIM_PROGS:
                 cprobe = fst.FST(csrc, 'exec')
